@@ -108,6 +108,9 @@ RECURSIVE RunOps(_, _, _), RunIdeal(_, _, _, _)
 RunOps(c, calls, i) == IF i > Len(calls) THEN <<>> ELSE LET c1 == Apply(c, calls[i]) IN <<Key(c1)>> \o RunOps(c1, calls, i + 1)
 RunIdeal(s, p, calls, i) == IF i > Len(calls) THEN <<>> ELSE LET p1 == AApply(s, p, calls[i]) IN <<APosKey(s, p1)>> \o RunIdeal(s, p1, calls, i + 1)
 
+RECURSIVE FinalPos(_, _, _, _)
+FinalPos(s, p, calls, i) == IF i > Len(calls) THEN p ELSE FinalPos(s, AApply(s, p, calls[i]), calls, i + 1)
+
 \* forward / backward enumeration through the operational cursor
 RECURSIVE WalkFwd(_, _), WalkBwd(_, _)
 WalkFwd(c, n) == LET c1 == Next(c) IN IF n = 0 \/ Key(c1).k = 0 THEN <<>> ELSE <<Key(c1)>> \o WalkFwd(c1, n - 1)
